@@ -570,15 +570,36 @@ Section Cbs.
   Lemma sub_ok_nil : forall s a, ns_counters s = [] -> sub_ok s a.
   Proof. intros s a H ci c d _ _ Hd. rewrite H in Hd. discriminate Hd. Qed.
 
-  Lemma on_task_started_loop : forall f ai s a,
-      ls_ok (ns_ls s) -> ns_test_ids s = true ->
-      nth_error (ns_apis s) ai = Some a -> a_in_loop a = true -> a_params a = a_src a ->
-      (forall ci, a_ctx a = Some ci -> exists c, nth_error (ns_apis s) ci = Some c) ->
-      (forall ci, a_ctx a = Some ci -> ci <> ai) -> sub_ok s a ->
-      on_task_started tasks env (S (S (S f))) ai s
-      = Ok (tt, notified TS (with_uuid (ITest (ns_tid s)) a) false (ts_pre ai s)).
+  (* ---- the callbacks of API objects inside loops: the identifier is renewed, the parameter
+          list is reset to the source list and the loop indices are substituted ---- *)
+  Definition reid (u : ident) (ps : list param) (x : api) : api := with_params ps (with_uuid u x).
+  (* what substitute_loop_indexes does to the parameters of [a] once its identifier is renewed
+     and its parameter list reset: the result is [ps], nothing else changes *)
+  Definition sub_to (s : NS) (ai : nat) (a : api) (ps : list param) : Prop :=
+    forall s1 u, nth_error (ns_apis s1) ai = Some (reid u (a_src a) a) ->
+                 ns_counters s1 = ns_counters s ->
+                 (forall k, k <> ai -> nth_error (ns_apis s1) k = nth_error (ns_apis s) k) ->
+                 substitute_loop_indexes tasks ai s1 = Ok (tt, s1 <| ns_apis := upd ai (with_params ps) (ns_apis s1) |>).
+
+  Definition ts_pre_l (ai : nat) (ps : list param) (s : NS) : NS :=
+    s <| ns_tid := S (ns_tid s) |> <| ns_apis := upd ai (reid (ITest (ns_tid s)) ps) (ns_apis s) |>.
+
+  Lemma upd_reid : forall u ps src (l : list api) ai,
+      upd ai (with_params ps) (upd ai (with_params src) (upd ai (with_uuid u) l)) = upd ai (reid u ps) l.
   Proof.
-    intros f ai s a Hls Hti Ha Hloop Hps Hctx Hne Hcn.
+    intros u ps src l ai.
+    rewrite (upd_upd_same _ (with_uuid u) (with_params src) (reid u src) l ai) by (intros; reflexivity).
+    apply upd_upd_same. intros; reflexivity.
+  Qed.
+
+  Lemma on_task_started_loop : forall f ai s a ps,
+      ls_ok (ns_ls s) -> ns_test_ids s = true ->
+      nth_error (ns_apis s) ai = Some a -> a_in_loop a = true -> a_has_call a = true ->
+      sub_to s ai a ps ->
+      on_task_started tasks env (S (S (S f))) ai s
+      = Ok (tt, notified TS (reid (ITest (ns_tid s)) ps a) false (ts_pre_l ai ps s)).
+  Proof.
+    intros f ai s a ps Hls Hti Ha Hloop Hhc Hsub.
     rewrite on_task_started_S. unfold nbind at 1. unfold get_api at 1. rewrite Ha.
     unfold nbind at 1. unfold nget at 1. rewrite Hloop.
     unfold nbind at 1. unfold nbind at 1. unfold nbind at 1. unfold new_test_or_uuid.
@@ -586,49 +607,44 @@ Section Cbs.
     unfold nbind at 1. unfold nmod at 1. unfold nret at 1.
     unfold nbind at 1. unfold set_api at 1. unfold nmod at 1.
     set (s1 := (s <| ns_tid := S (ns_tid s) |>) <| ns_apis := upd ai (with_uuid (ITest (ns_tid s))) (ns_apis (s <| ns_tid := S (ns_tid s) |>)) |>).
-    assert (Hs1 : s1 = ts_pre ai s) by reflexivity.
-    assert (Ha1 : nth_error (ns_apis s1) ai = Some (with_uuid (ITest (ns_tid s)) a)).
-    { rewrite Hs1. unfold ts_pre. cbn [ns_apis set].
-      change (ns_apis (s <| ns_tid := S (ns_tid s) |>)) with (ns_apis s). apply nth_error_upd_eq. exact Ha. }
-    assert (Estep : (if a_has_call a then set_api ai (with_params (a_src a)) else nret tt) s1 = Ok (tt, s1)).
-    { destruct (a_has_call a); [|reflexivity]. unfold set_api, nmod. f_equal. f_equal.
-      rewrite Hs1. unfold ts_pre.
-      change (ns_apis ((s <| ns_tid := S (ns_tid s) |>) <| ns_apis := upd ai (with_uuid (ITest (ns_tid s))) (ns_apis s) |>))
-        with (upd ai (with_uuid (ITest (ns_tid s))) (ns_apis s)).
-      rewrite (upd_upd_same _ _ _ (with_uuid (ITest (ns_tid s))) (ns_apis s) ai).
-      - destruct s; reflexivity.
-      - intros x Hx. rewrite Ha in Hx. inversion Hx; subst x. rewrite <- Hps.
-        change (a_params a) with (a_params (with_uuid (ITest (ns_tid s)) a)). apply with_params_same. }
+    set (s2 := s1 <| ns_apis := upd ai (with_params (a_src a)) (ns_apis s1) |>).
+    assert (Estep : (if a_has_call a then set_api ai (with_params (a_src a)) else nret tt) s1 = Ok (tt, s2)).
+    { rewrite Hhc. reflexivity. }
     rewrite Estep.
-    rewrite (subst_loop_noop ai s1 _ Ha1).
-    - rewrite Hs1. apply notify_user_frag; [exact Hls|rewrite <- Hs1; exact Ha1|intro E0; discriminate E0].
-    - intros ci Hci. cbn [with_uuid a_ctx] in Hci. destruct (Hctx ci Hci) as [c Hc].
-      rewrite Hs1. unfold ts_pre. cbn [ns_apis set]. change (ns_apis (s <| ns_tid := S (ns_tid s) |>)) with (ns_apis s).
-      destruct (Nat.eq_dec ai ci) as [->|Hne'].
-      + eexists. apply nth_error_upd_eq. exact Hc.
-      + exists c. rewrite nth_error_upd_neq by exact Hne'. exact Hc.
-    - cbn [with_uuid a_params a_src]. exact Hps.
-    - intros ci c d Hci Hc Hd. cbn [with_uuid a_ctx a_src] in *.
-      assert (Hc' : nth_error (ns_apis s) ci = Some c).
-      { rewrite Hs1 in Hc. unfold ts_pre in Hc. cbn [ns_apis set] in Hc.
-        change (ns_apis (s <| ns_tid := S (ns_tid s) |>)) with (ns_apis s) in Hc.
-        rewrite nth_error_upd_neq in Hc; [exact Hc|]. intros ->. exact (Hne _ Hci eq_refl). }
-      apply (Hcn ci c d Hci Hc'). rewrite Hs1 in Hd. exact Hd.
+    assert (Ha2 : nth_error (ns_apis s2) ai = Some (reid (ITest (ns_tid s)) (a_src a) a)).
+    { unfold s2, s1. cbn [ns_apis set]. change (ns_apis (s <| ns_tid := S (ns_tid s) |>)) with (ns_apis s).
+      rewrite (upd_upd_same _ (with_uuid (ITest (ns_tid s))) (with_params (a_src a)) (reid (ITest (ns_tid s)) (a_src a)) (ns_apis s) ai)
+        by (intros; reflexivity).
+      apply nth_error_upd_eq. exact Ha. }
+    rewrite (Hsub s2 (ITest (ns_tid s)) Ha2).
+    - assert (E : s2 <| ns_apis := upd ai (with_params ps) (ns_apis s2) |> = ts_pre_l ai ps s).
+      { unfold s2, s1, ts_pre_l. cbn [ns_apis set]. change (ns_apis (s <| ns_tid := S (ns_tid s) |>)) with (ns_apis s).
+        rewrite upd_reid. destruct s; reflexivity. }
+      rewrite E. apply notify_user_frag; [exact Hls| |intro E0; discriminate E0].
+      unfold ts_pre_l. cbn [ns_apis set]. apply nth_error_upd_eq. exact Ha.
+    - reflexivity.
+    - intros k Hk. unfold s2, s1. cbn [ns_apis set]. change (ns_apis (s <| ns_tid := S (ns_tid s) |>)) with (ns_apis s).
+      rewrite !nth_error_upd_neq by congruence. reflexivity.
   Qed.
 
   (* the service callback draws a uuid4 first, even in test-id mode *)
   Definition ss_pre_loop (ai : nat) (p : nat) (s : NS) : NS := ss_pre ai p (s <| ns_fresh := S (ns_fresh s) |>).
+  Definition ss_pre_l (ai : nat) (p : nat) (ps : list param) (s : NS) : NS :=
+    (s <| ns_fresh := S (ns_fresh s) |>)
+      <| ns_sid := S (ns_sid s) |>
+      <| ns_place_dict := (ITest (ns_sid s), p) :: ns_place_dict s |>
+      <| ns_apis := upd ai (reid (ITest (ns_sid s)) ps) (ns_apis s) |>
+      <| ns_awaited := ns_awaited s ++ [EvFinish (ITest (ns_sid s))] |>.
 
-  Lemma on_service_started_loop_eq : forall f ai s a p,
+  Lemma on_service_started_loop_eq : forall f ai s a p ps,
       ns_test_ids s = true ->
-      nth_error (ns_apis s) ai = Some a -> a_in_loop a = true -> a_params a = a_src a ->
-      (forall ci, a_ctx a = Some ci -> exists c, nth_error (ns_apis s) ci = Some c) ->
-      (forall ci, a_ctx a = Some ci -> ci <> ai) -> sub_ok s a ->
+      nth_error (ns_apis s) ai = Some a -> a_in_loop a = true ->
+      sub_to s ai a ps ->
       dict_get ident_eqb (a_uuid a) (ns_place_dict s) = Some p ->
       on_service_started tasks env (S (S (S f))) ai s
-      = notify_user tasks env (S (S f)) SS ai false (ss_pre_loop ai p s).
+      = notify_user tasks env (S (S f)) SS ai false (ss_pre_l ai p ps s).
   Proof.
-    intros f ai s a p Hti Ha Hloop Hps Hctx Hne Hcn Hd.
+    intros f ai s a p ps Hti Ha Hloop Hsub Hd.
     rewrite on_service_started_S. unfold nbind at 1. unfold get_api at 1. rewrite Ha.
     unfold nbind at 1. unfold nget at 1. cbv zeta. rewrite Hloop, Hti.
     unfold nbind at 1. unfold nbind at 1. unfold fresh_uuid at 1.
@@ -642,111 +658,62 @@ Section Cbs.
     unfold nbind at 1. unfold nmod at 1. unfold set_api at 1. unfold nmod at 1.
     change (ns_sid sf) with (ns_sid s).
     set (s1 := ((sf <| ns_sid := S (ns_sid s) |>) <| ns_place_dict := _ |>) <| ns_apis := _ |>).
-    assert (Ha1 : nth_error (ns_apis s1) ai = Some (with_uuid (ITest (ns_sid s)) a)).
-    { unfold s1. cbn [ns_apis set]. apply nth_error_upd_eq. exact Ha. }
-    assert (Estep : set_api ai (with_params (a_src a)) s1 = Ok (tt, s1)).
-    { unfold set_api, nmod. f_equal. f_equal. unfold s1.
-      match goal with |- ?X <| ns_apis := upd ai ?g (ns_apis (?Y <| ns_apis := upd ai ?h ?l |>)) |> = _ =>
-        change (ns_apis (Y <| ns_apis := upd ai h l |>)) with (upd ai h l);
-        rewrite (upd_upd_same _ h g h l ai) end.
-      - destruct s; reflexivity.
-      - intros x Hx. change (ns_apis ((sf <| ns_sid := S (ns_sid s) |>) <| ns_place_dict := (ITest (ns_sid s), p) :: ns_place_dict (sf <| ns_sid := S (ns_sid s) |>) |>)) with (ns_apis s) in Hx.
-        rewrite Ha in Hx. inversion Hx; subst x. rewrite <- Hps.
-        change (a_params a) with (a_params (with_uuid (ITest (ns_sid s)) a)). apply with_params_same. }
+    set (s2 := s1 <| ns_apis := upd ai (with_params (a_src a)) (ns_apis s1) |>).
+    assert (Estep : set_api ai (with_params (a_src a)) s1 = Ok (tt, s2)) by reflexivity.
     unfold nbind at 1. rewrite Estep.
-    unfold nbind at 1. rewrite (subst_loop_noop ai s1 _ Ha1).
-    - unfold nbind at 1. unfold get_api at 1. rewrite Ha1.
-      unfold nmod at 1.
-      change (a_uuid (with_uuid (ITest (ns_sid s)) a)) with (ITest (ns_sid s)).
-      match goal with |- notify_user _ _ _ _ _ _ ?X = _ => assert (EX : X = ss_pre_loop ai p s) by (destruct s; reflexivity) end.
+    assert (Ha2 : nth_error (ns_apis s2) ai = Some (reid (ITest (ns_sid s)) (a_src a) a)).
+    { unfold s2, s1. cbn [ns_apis set].
+      match goal with |- nth_error (upd ai ?g (upd ai ?h ?l)) ai = _ =>
+        rewrite (upd_upd_same _ h g (reid (ITest (ns_sid s)) (a_src a)) l ai) by (intros; reflexivity) end.
+      apply nth_error_upd_eq. exact Ha. }
+    unfold nbind at 1. rewrite (Hsub s2 (ITest (ns_sid s)) Ha2).
+    - assert (E : s2 <| ns_apis := upd ai (with_params ps) (ns_apis s2) |>
+                  = (ss_pre_l ai p ps s) <| ns_awaited := ns_awaited s |>).
+      { unfold s2, s1, ss_pre_l, sf. cbn [ns_apis set]. rewrite upd_reid. destruct s; reflexivity. }
+      rewrite E.
+      unfold nbind at 1. unfold get_api at 1.
+      assert (Ha3 : nth_error (ns_apis ((ss_pre_l ai p ps s) <| ns_awaited := ns_awaited s |>)) ai
+                    = Some (reid (ITest (ns_sid s)) ps a)).
+      { unfold ss_pre_l. cbn [ns_apis set]. apply nth_error_upd_eq. exact Ha. }
+      rewrite Ha3. unfold nmod at 1.
+      change (a_uuid (reid (ITest (ns_sid s)) ps a)) with (ITest (ns_sid s)).
+      match goal with |- notify_user _ _ _ _ _ _ ?X = _ => assert (EX : X = ss_pre_l ai p ps s) by (destruct s; reflexivity) end.
       rewrite EX. reflexivity.
-    - intros ci Hci. cbn [with_uuid a_ctx] in Hci. destruct (Hctx ci Hci) as [c Hc].
-      unfold s1. cbn [ns_apis set].
-      destruct (Nat.eq_dec ai ci) as [->|Hne'].
-      + eexists. apply nth_error_upd_eq. exact Hc.
-      + exists c. rewrite nth_error_upd_neq by exact Hne'. exact Hc.
-    - cbn [with_uuid a_params a_src]. exact Hps.
-    - intros ci c d Hci Hc Hd'. cbn [with_uuid a_ctx a_src] in *.
-      assert (Hc' : nth_error (ns_apis s) ci = Some c).
-      { unfold s1 in Hc. cbn [ns_apis set] in Hc.
-        rewrite nth_error_upd_neq in Hc; [exact Hc|]. intros ->. exact (Hne _ Hci eq_refl). }
-      apply (Hcn ci c d Hci Hc'). exact Hd'.
+    - reflexivity.
+    - intros k Hk. unfold s2, s1. cbn [ns_apis set]. rewrite !nth_error_upd_neq by congruence. reflexivity.
   Qed.
 
-  Lemma on_service_started_loop : forall f ai s a p,
+  Lemma on_service_started_loop : forall f ai s a p ps,
       ls_ok (ns_ls s) -> ns_test_ids s = true ->
-      nth_error (ns_apis s) ai = Some a -> a_in_loop a = true -> a_params a = a_src a ->
-      (forall ci, a_ctx a = Some ci -> exists c, nth_error (ns_apis s) ci = Some c) ->
-      (forall ci, a_ctx a = Some ci -> ci <> ai) -> sub_ok s a ->
+      nth_error (ns_apis s) ai = Some a -> a_in_loop a = true ->
+      sub_to s ai a ps ->
       dict_get ident_eqb (a_uuid a) (ns_place_dict s) = Some p ->
       ec_imm env (ns_nss s) = false ->
       on_service_started tasks env (S (S (S f))) ai s
-      = Ok (tt, notified SS (with_uuid (ITest (ns_sid s)) a) false (ss_pre_loop ai p s)).
+      = Ok (tt, notified SS (reid (ITest (ns_sid s)) ps a) false (ss_pre_l ai p ps s)).
   Proof.
-    intros f ai s a p Hls Hti Ha Hloop Hps Hctx Hne Hcn Hd Hni.
-    rewrite on_service_started_S. unfold nbind at 1. unfold get_api at 1. rewrite Ha.
-    unfold nbind at 1. unfold nget at 1. cbv zeta. rewrite Hloop, Hti.
-    unfold nbind at 1. unfold nbind at 1. unfold fresh_uuid at 1.
-    unfold nbind at 1. unfold new_test_or_uuid at 1.
-    unfold nbind at 1. unfold nget at 1.
-    change (ns_test_ids (s <| ns_fresh := S (ns_fresh s) |>)) with (ns_test_ids s). rewrite Hti.
-    unfold nbind at 1. unfold nmod at 1. unfold nret at 1.
-    unfold nbind at 1. unfold nbind at 1. unfold nget at 1.
-    set (sf := s <| ns_fresh := S (ns_fresh s) |>).
-    change (ns_place_dict (sf <| ns_sid := S (ns_sid sf) |>)) with (ns_place_dict s). rewrite Hd.
-    unfold nbind at 1. unfold nmod at 1. unfold set_api at 1. unfold nmod at 1.
-    change (ns_sid sf) with (ns_sid s).
-    set (s1 := ((sf <| ns_sid := S (ns_sid s) |>) <| ns_place_dict := _ |>) <| ns_apis := _ |>).
-    assert (Ha1 : nth_error (ns_apis s1) ai = Some (with_uuid (ITest (ns_sid s)) a)).
-    { unfold s1. cbn [ns_apis set]. apply nth_error_upd_eq. exact Ha. }
-    assert (Estep : set_api ai (with_params (a_src a)) s1 = Ok (tt, s1)).
-    { unfold set_api, nmod. f_equal. f_equal. unfold s1.
-      match goal with |- ?X <| ns_apis := upd ai ?g (ns_apis (?Y <| ns_apis := upd ai ?h ?l |>)) |> = _ =>
-        change (ns_apis (Y <| ns_apis := upd ai h l |>)) with (upd ai h l);
-        rewrite (upd_upd_same _ h g h l ai) end.
-      - destruct s; reflexivity.
-      - intros x Hx. change (ns_apis ((sf <| ns_sid := S (ns_sid s) |>) <| ns_place_dict := (ITest (ns_sid s), p) :: ns_place_dict (sf <| ns_sid := S (ns_sid s) |>) |>)) with (ns_apis s) in Hx.
-        rewrite Ha in Hx. inversion Hx; subst x. rewrite <- Hps.
-        change (a_params a) with (a_params (with_uuid (ITest (ns_sid s)) a)). apply with_params_same. }
-    unfold nbind at 1. rewrite Estep.
-    unfold nbind at 1. rewrite (subst_loop_noop ai s1 _ Ha1).
-    - unfold nbind at 1. unfold get_api at 1. rewrite Ha1.
-      unfold nmod at 1.
-      change (a_uuid (with_uuid (ITest (ns_sid s)) a)) with (ITest (ns_sid s)).
-      match goal with |- notify_user _ _ _ _ _ _ ?X = _ => assert (EX : X = ss_pre_loop ai p s) by (destruct s; reflexivity) end.
-      rewrite EX. apply notify_user_frag; [exact Hls| |intros _; exact Hni].
-      unfold ss_pre_loop, ss_pre. cbn [ns_apis set]. apply nth_error_upd_eq. exact Ha.
-    - intros ci Hci. cbn [with_uuid a_ctx] in Hci. destruct (Hctx ci Hci) as [c Hc].
-      unfold s1. cbn [ns_apis set].
-      destruct (Nat.eq_dec ai ci) as [->|Hne'].
-      + eexists. apply nth_error_upd_eq. exact Hc.
-      + exists c. rewrite nth_error_upd_neq by exact Hne'. exact Hc.
-    - cbn [with_uuid a_params a_src]. exact Hps.
-    - intros ci c d Hci Hc Hd'. cbn [with_uuid a_ctx a_src] in *.
-      assert (Hc' : nth_error (ns_apis s) ci = Some c).
-      { unfold s1 in Hc. cbn [ns_apis set] in Hc.
-        rewrite nth_error_upd_neq in Hc; [exact Hc|]. intros ->. exact (Hne _ Hci eq_refl). }
-      apply (Hcn ci c d Hci Hc'). exact Hd'.
+    intros f ai s a p ps Hls Hti Ha Hloop Hsub Hd Hni.
+    rewrite (on_service_started_loop_eq f ai s a p ps Hti Ha Hloop Hsub Hd).
+    apply notify_user_frag; [exact Hls| |intros _; exact Hni].
+    unfold ss_pre_l. cbn [ns_apis set]. apply nth_error_upd_eq. exact Ha.
   Qed.
 
-  Lemma run_cb_TS_loop : forall f ai s a,
+  Lemma run_cb_TS_loop : forall f ai s a ps,
       ls_ok (ns_ls s) -> ns_test_ids s = true ->
-      nth_error (ns_apis s) ai = Some a -> a_in_loop a = true -> a_params a = a_src a ->
-      (forall ci, a_ctx a = Some ci -> exists c, nth_error (ns_apis s) ci = Some c) ->
-      (forall ci, a_ctx a = Some ci -> ci <> ai) -> sub_ok s a ->
+      nth_error (ns_apis s) ai = Some a -> a_in_loop a = true -> a_has_call a = true ->
+      sub_to s ai a ps ->
       run_cb tasks env (S (S (S (S f)))) (CbTS ai) s
-      = Ok (tt, notified TS (with_uuid (ITest (ns_tid s)) a) false (ts_pre ai s)).
+      = Ok (tt, notified TS (reid (ITest (ns_tid s)) ps a) false (ts_pre_l ai ps s)).
   Proof. intros. rewrite run_cb_S. apply on_task_started_loop; assumption. Qed.
 
-  Lemma run_cb_SS_loop : forall f ai s a p,
+  Lemma run_cb_SS_loop : forall f ai s a p ps,
       ls_ok (ns_ls s) -> ns_test_ids s = true ->
-      nth_error (ns_apis s) ai = Some a -> a_in_loop a = true -> a_params a = a_src a ->
-      (forall ci, a_ctx a = Some ci -> exists c, nth_error (ns_apis s) ci = Some c) ->
-      (forall ci, a_ctx a = Some ci -> ci <> ai) -> sub_ok s a ->
+      nth_error (ns_apis s) ai = Some a -> a_in_loop a = true ->
+      sub_to s ai a ps ->
       dict_get ident_eqb (a_uuid a) (ns_place_dict s) = Some p ->
       ec_imm env (ns_nss s) = false ->
       run_cb tasks env (S (S (S (S f)))) (CbSS ai) s
-      = Ok (tt, notified SS (with_uuid (ITest (ns_sid s)) a) false (ss_pre_loop ai p s)).
+      = Ok (tt, notified SS (reid (ITest (ns_sid s)) ps a) false (ss_pre_l ai p ps s)).
   Proof. intros. rewrite run_cb_S. apply on_service_started_loop; assumption. Qed.
 
   (* ---- the four notification callbacks, for every sufficiently large fuel ---- *)
@@ -841,7 +808,9 @@ Section Cbs.
     unfold nlog, nmod. cbn [map rev app]. rewrite set_log_same. reflexivity.
   Qed.
 
-  Definition ss_pre0 (il : bool) (ai p : nat) (s : NS) : NS := if il then ss_pre_loop ai p s else ss_pre ai p s.
+  Definition ss_pre0 (il : bool) (ai p : nat) (ps : list param) (s : NS) : NS := if il then ss_pre_l ai p ps s else ss_pre ai p s.
+  Lemma reid_same : forall u a, reid u (a_params a) a = with_uuid u a.
+  Proof. intros u a. destruct a; reflexivity. Qed.
 End Cbs.
 
 (* =========================================================================== *)
@@ -1362,22 +1331,21 @@ Section ImmCb.
   Lemma ident_eqb_refl' : forall a, ident_eqb a a = true.
   Proof. intros [i|i]; cbn [ident_eqb]; apply Nat.eqb_refl. Qed.
 
-  Lemma RunCb_SS_imm : forall ai s a p s',
+  Lemma RunCb_SS_imm : forall ai s a p ps s',
       ns_test_ids s = true -> listeners_of SS (ns_ls s) = [0] ->
-      nth_error (ns_apis s) ai = Some a -> a_params a = a_src a ->
-      (forall ci, a_ctx a = Some ci -> exists c, nth_error (ns_apis s) ci = Some c) ->
-      (forall ci, a_ctx a = Some ci -> ci <> ai) -> sub_ok s a ->
+      nth_error (ns_apis s) ai = Some a ->
+      (a_in_loop a = true -> sub_to tasks s ai a ps) -> (a_in_loop a = false -> ps = a_params a) ->
       dict_get ident_eqb (a_uuid a) (ns_place_dict s) = Some p ->
       ec_imm env (ns_nss s) = true ->
       existsb (event_eqb (EvFinish (ITest (ns_sid s)))) (ns_awaited s) = false ->
       has_place s p = true ->
-      let a' := with_uuid (ITest (ns_sid s)) a in
-      let mid := imm_mid a' (ss_pre0 (a_in_loop a) ai p s) in
+      let a' := reid (ITest (ns_sid s)) ps a in
+      let mid := imm_mid a' (ss_pre0 (a_in_loop a) ai p ps s) in
       EvalTo tasks env (placed p (mid <| ns_awaited := ns_awaited s |>)) s' ->
       listeners_of SS (ns_ls s') = [0] -> ns_obs s' = [] -> (exists a'', nth_error (ns_apis s') ai = Some a'') ->
       RunCb tasks env (CbSS ai) s (bump s').
   Proof.
-    intros ai s a p s' Hti HL Ha Hps Hctx Hne Hsub Hd Himm Hnaw Hhas a' mid Hev HL' Hobs' Hapi'.
+    intros ai s a p ps s' Hti HL Ha Hsub Hps Hd Himm Hnaw Hhas a' mid Hev HL' Hobs' Hapi'.
     set (ev := EvFinish (ITest (ns_sid s))) in *.
     assert (Eaw : ns_awaited mid = ns_awaited s ++ [ev]) by (unfold mid, imm_mid, ss_pre0; destruct (a_in_loop a); reflexivity).
     assert (Hevr : event_eqb ev ev = true) by (unfold ev; cbn [event_eqb ident_eqb]; apply Nat.eqb_refl).
@@ -1385,25 +1353,28 @@ Section ImmCb.
     destruct (fire_event_to tasks env ev mid (ns_awaited s) p s') as [f0 Hf0].
     - rewrite Eaw. exact Hex.
     - rewrite Eaw. exact Hrem.
-    - unfold ev, mid, imm_mid, ss_pre0. destruct (a_in_loop a); cbn [ns_place_dict set ss_pre ss_pre_loop dict_get ident_eqb];
+    - unfold ev, mid, imm_mid, ss_pre0. destruct (a_in_loop a); cbn [ns_place_dict set ss_pre ss_pre_l dict_get ident_eqb];
         rewrite Nat.eqb_refl; reflexivity.
     - unfold mid, imm_mid, ss_pre0. destruct (a_in_loop a); exact Hhas.
     - exact Hev.
     - exists (S (S (S (S f0)))). intros f Hf. do 4 (destruct f as [|f]; [lia|]).
       rewrite run_cb_S.
-      assert (Ha1 : forall il, nth_error (ns_apis (ss_pre0 il ai p s)) ai = Some a').
-      { intro il. unfold ss_pre0, ss_pre_loop, ss_pre. destruct il; cbn [ns_apis set]; apply nth_error_upd_eq; exact Ha. }
-      assert (Hni : forall il, ec_imm env (ns_nss (ss_pre0 il ai p s)) = true).
+      assert (Hni : forall il, ec_imm env (ns_nss (ss_pre0 il ai p ps s)) = true).
       { intro il. unfold ss_pre0. destruct il; exact Himm. }
-      assert (HL1 : forall il, listeners_of SS (ns_ls (ss_pre0 il ai p s)) = [0]).
+      assert (HL1 : forall il, listeners_of SS (ns_ls (ss_pre0 il ai p ps s)) = [0]).
       { intro il. unfold ss_pre0. destruct il; exact HL. }
       unfold mid in Hf0.
       destruct (a_in_loop a) eqn:Eil.
-      + rewrite (on_service_started_loop_eq tasks env f ai s a p); try assumption.
-        apply (notify_user_imm tasks env Hq f ai _ a' s' (HL1 true) (Ha1 true) (Hni true)); try assumption.
+      + assert (Ha1 : nth_error (ns_apis (ss_pre0 true ai p ps s)) ai = Some a').
+        { unfold ss_pre0, ss_pre_l. cbn [ns_apis set]. apply nth_error_upd_eq. exact Ha. }
+        rewrite (on_service_started_loop_eq tasks env f ai s a p ps Hti Ha Eil (Hsub eq_refl) Hd).
+        apply (notify_user_imm tasks env Hq f ai _ a' s' (HL1 true) Ha1 (Hni true)); try assumption.
         apply Hf0. lia.
-      + rewrite (on_service_started_eq tasks env f ai s a p); try assumption.
-        apply (notify_user_imm tasks env Hq f ai _ a' s' (HL1 false) (Ha1 false) (Hni false)); try assumption.
+      + assert (Ea' : a' = with_uuid (ITest (ns_sid s)) a) by (unfold a'; rewrite (Hps eq_refl); apply reid_same).
+        assert (Ha1 : nth_error (ns_apis (ss_pre0 false ai p ps s)) ai = Some a').
+        { rewrite Ea'. unfold ss_pre0, ss_pre. cbn [ns_apis set]. apply nth_error_upd_eq. exact Ha. }
+        rewrite (on_service_started_eq tasks env f ai s a p); try assumption.
+        apply (notify_user_imm tasks env Hq f ai _ a' s' (HL1 false) Ha1 (Hni false)); try assumption.
         apply Hf0. lia.
   Qed.
 End ImmCb.
